@@ -13,6 +13,7 @@ import NgVerif.Model.Pyramid
 import NgVerif.Model.Scales
 import NgVerif.Model.FileStore
 import NgVerif.Model.Transform
+import NgVerif.Model.Mesh
 /-
   ngdriver: line protocol. One request per line on stdin (space-separated tokens),
   one reply per line on stdout. Unknown / malformed requests answer `bad-request`.
@@ -393,6 +394,21 @@ def handle (toks : List String) : String :=
   | ["ng-type", name] =>
     let r := Transform.guessedType name
     s!"{r.1} {if r.2 then 4 else 0}"
+  | ["mesh-save", coords, tris] =>
+    match parseList parseNat coords, parseList parseNat tris with
+    | some c, some t => bytesToHex (Mesh.save c t)
+    | _, _ => "bad-request"
+  | ["mesh-read", file] =>
+    match hexToBytes file with
+    | some b =>
+      match Mesh.read b with
+      | .ok (v, t) => s!"ok {showNatList v} {showNatList t}"
+      | .error _ => "err meshdata"
+    | none => "bad-request"
+  | ["mesh-link", dir, label, nc] =>
+    match parseNat label with
+    | some l => Mesh.linkName dir l (nc == "1")
+    | none => "bad-request"
   | _ => "bad-request"
 
 partial def loop (h : IO.FS.Stream) (out : IO.FS.Stream) : IO Unit := do
